@@ -366,8 +366,8 @@ theorem prepareNotMain_ledger (e : Env) (w w' : World) (src : Account) (c : DecC
           rw [this]; exact sweep_ledger e w addr d
       · split at hsw
         · have hsw' := Outcome.ok.inj hsw
-          have : ww = (sweep e w src.id).2 := by rw [hsw']
-          rw [this]; exact sweep_ledger e w src.id d
+          have : ww = (sweep e w (canonAddr src.id)).2 := by rw [hsw']
+          rw [this]; exact sweep_ledger e w (canonAddr src.id) d
         · cases hsw; rfl
     split at h
     · cases h; exact key
